@@ -280,6 +280,10 @@ def load(config, repo=None, quiet=False):
             shutil.rmtree(d, ignore_errors=True)
             rc, secs = extract(config, tmp, repo)
             info["extract_s"] = round(secs, 1)
+            if rc == 0 and cache_key(config, repo) != th:
+                # the tree was edited while cargo was compiling it: the facts describe neither tree state
+                shutil.rmtree(tmp, ignore_errors=True)
+                raise ExtractError("the source tree changed during fact extraction for %s; run the check again" % config)
             if rc != 0:
                 log = ""
                 try:
